@@ -59,7 +59,7 @@ def run(ctx):
         traces = [ctx.replay]
     else:
         exe = lib.build_driver("c16_scatter")
-        runs = [("h0", 24, 40, 0)] if q else [("h0", 60, 60, 0), ("h1", 40, 50, 1), ("h2", 8, 24, 2)]
+        runs = [("h0", 24, 40, 0)] if q else [("h0", 64, 60, 0), ("h1", 40, 50, 1), ("h2", 8, 24, 2)]
         traces = []
         for (name, nscen, steps, size) in runs:
             t = os.path.join(ctx.work, name + ".ndjson")
